@@ -60,6 +60,11 @@ CFG = {
                      geom_w=[3, 3, 2, 3, 3, 1, 1, 1, 3], where_w=[3, 2, 2, 3, 1], noise_w=[4, 1, 2, 2],
                      knobs=dict(n_search=0.5, force_poll_mesh=0.25, search_grid_number=0.3)),
         n=dict(quick=128, thorough=4000),
+        # constrained optimum pushed into the corner where an oblique/non-convex constraint meets a hard bound that is
+        # not aligned with the search mesh (clamping to the bound and projecting to the mesh-rounded bound differ there)
+        extra=[(dict(name="c02corner", cons_p=1.0, cons=["corner", "halfspace", "annulus", "slab"], cons_w=[6, 1, 2, 1], geom=["sym", "asym", "tight"], geom_w=[2, 3, 1],
+                     where=["outside", "face"], where_w=[3, 2], fam=["quad", "abs", "linear"], fam_w=[3, 1, 2], noise=["none"], noise_w=[1],
+                     D=[2, 2, 3], x0=["inside"], x0_w=[1], budget_kinds=["mid"], budget_min=40, knobs=dict(n_search=0.3, max_iter=0.0)), 32, 500)],
         nontrivial=lambda r: (r["outcome"] == "completed" and r["n_polls"] >= 1 and r["n_calls"] >= 5) or
                              (r["outcome"] == "ctor_valueerror"),
         rule="distinct constrained scenarios: completed runs with >=5 evaluations and >=1 poll, or constructor rejections (infeasible / near-boundary x0)",
@@ -102,7 +107,11 @@ CFG = {
         # observed again and again (repeat merges into record 0)
         extra=[(dict(name="c09x0", D=[1, 1, 2], noise=["hetero"], noise_w=[1], where=["x0"], where_w=[1], x0=["inside"], x0_w=[1],
                      fam=["quad", "abs"], fam_w=[3, 1], cons_p=0.0, sigma_log10=(-3, -1), budget_kinds=["mid"], geom=["sym", "asym"], geom_w=[1, 1],
-                     knobs=dict(noise_final_samples=0.5)), 16, 300)],
+                     knobs=dict(noise_final_samples=0.5)), 16, 300),
+               # every noise mode x a final re-sampling stage of 0 / 1 / 2 samples, runs long enough to poll twice
+               (dict(name="c09nfs", noise=["auto", "declared", "hetero"], noise_w=[2, 1, 1], nfs_choices=[1, 1, 0, 2],
+                     knobs=dict(noise_final_samples=1.0, max_iter=0.0), fam=["quad", "abs"], fam_w=[3, 1], cons_p=0.1,
+                     budget_kinds=["small", "mid"], budget_min=30), 24, 400)],
         nontrivial=lambda r: r["outcome"] in ("completed", "exception", "ctor_crash"),
         rule="distinct valid scenarios that were constructed and run to an outcome (completed or crashed)",
     ),
@@ -131,9 +140,9 @@ CFG = {
         n=dict(quick=96, thorough=3000),
         # start (and optimum) far outside a plausible box of ordinary size inside a huge hard box: internal
         # coordinates of 1e6..1e8, where a careless squared-distance formula loses all its digits
-        extra=[(dict(name="c15far", geom=["huge"], geom_w=[1], x0=["hard_not_plausible"], x0_w=[1], where=["hard", "x0"], where_w=[2, 1],
+        extra=[(dict(name="c15far", geom=["vast", "huge"], geom_w=[3, 1], x0=["far", "hard_not_plausible"], x0_w=[3, 1], where=["x0", "hard"], where_w=[3, 1],
                      fam=["quad", "abs"], fam_w=[3, 1], noise_w=[3, 0, 2, 2], cons_p=0.0, monitors=["acq"],
-                     budget_kinds=["small", "mid"], knobs=dict(n_train=0.3)), 16, 300)],
+                     budget_kinds=["mid"], budget_min=50, knobs=dict(n_train=0.9, max_iter=0.0)), 24, 400)],
         nontrivial=lambda r: r["outcome"] == "completed" and r["lgf_calls"] >= 2 and r["acq_calls"] >= 2,
         rule="distinct scenarios completed with >=2 local GP fits and >=2 acquisition evaluations, all judged",
     ),
